@@ -220,6 +220,22 @@ CHECKS = {
         "phases, edge_type 0 for non-edges); pyzx's matrix convention is calibrated on a hand-built graph. "
         "Tolerance 1e-7.",
         "DESIGN.md 4/C17"),
+    "C18": (
+        "exhaustive enumeration of word sequences / grammars x all answers of the intercepted shuffle "
+        "(deviation-style ChoiceExplorer with prefix replay) / rule boxes over nested slash types",
+        "Pregroup: every word sequence up to the length bound over a 9-word vocabulary with adjoints and "
+        "every target is parsed; each returned diagram (and each brute_force yield) must have empty dom, the "
+        "target as cod, the words in order at the cumulated offsets, then only cups between adjacent "
+        "(x, x.r) wires. CFG: discopy.grammar.cfg.random is replaced by a stub; for every grammar, start "
+        "symbol and limit combination every sequence of shuffle answers (which eligible production comes "
+        "first) is executed by prefix replay; every yielded sentence is replayed as a top-down leftmost "
+        "derivation from the start symbol using only the given productions; max_sentences, "
+        "remove_duplicates and not_twice are honoured. Biclosed: every FA/BA/FC/BC/FX/BX/Curry box over "
+        "nested over/under types with composite and empty sides, CCG trees and cat2ty against reference "
+        "parsers: the rigid image has the images of dom and cod and is well-typed.",
+        "The shuffle stub reads the generator's locals to merge equivalent answers. Soundness of parses is "
+        "checked, not completeness of the eager strategy. Bounds in evidence.",
+        "DESIGN.md 4/C18"),
 }
 
 PENDING_REASON = ("check not built yet in this session (planned: bounded exhaustive exploration as in "
